@@ -17,7 +17,7 @@ import random
 
 from ..common import Run, MachineryError, quiet_pygaps, exc_class
 from .. import tlc
-from ..models_common import FORMS, frac, fpar, par_key, build, shape_arg, call, per_point, denc as dec_enc, history_records, elementwise_records, wrapper_elementwise_records
+from ..models_common import FORMS, frac, fpar, par_key, build, shape_arg, call, per_point, denc as dec_enc, history_records, elementwise_records, wrapper_elementwise_records, integer_records
 
 PID = "C10"
 # float64 tolerances of the table replay, by accuracy class of the library routine (spec: InvClass)
@@ -207,7 +207,7 @@ _OBSERVED = {"nonneg": "negative", "cap": "above_capacity", "monotone": "decreas
              "henry_pressure": "wrong_slope", "zero_loading": "nonzero", "zero_pressure": "nonzero"}
 
 
-def judge_obs(run, model, calc, entry, form, ans, info, zinfo, hinfo):
+def judge_obs(run, model, calc, entry, form, ans, info, zinfo, hinfo, extra=None, shown_parameters=None):
     config = "degenerate_quadratic" if entry["deg"] == "y" else "regular"
     inv_fn = "pressure" if calc == "loading" else "loading"
     for b in ans["bad"]:
@@ -229,8 +229,8 @@ def judge_obs(run, model, calc, entry, form, ans, info, zinfo, hinfo):
                 fn = "pressure"
             observed = _OBSERVED.get(clause, "mismatch")
             clause_out = clause
-        run.violation({"site": _site(model, fn), "clause": clause_out, "form": form, "config": config, "observed": observed},
-                      {"model": model, "parameters": fpar(entry["par"]), "parameters_rational": entry["par"], "point": pinfo,
+        run.violation({"site": _site(model, fn), "clause": clause_out, "form": form, "config": config, "observed": observed, **(extra or {})},
+                      {"model": model, "parameters": shown_parameters or fpar(entry["par"]), "parameters_rational": entry["par"], "point": pinfo,
                        "where": "grid point %d" % at if at > 0 else ("zero point" if at == 0 else "Henry limit"),
                        "spec": "Models!Obs%sExplicit clause %s" % ("Loading" if calc == "loading" else "Pressure", clause)})
 
@@ -257,7 +257,37 @@ def relational(run, grid, meta, rng, thorough):
                     judge_obs(run, model, calc, entry, form, ans, info, zinfo, hinfo)
                     if calc == "pressure":
                         run.add("pressure_explicit_points_before_turning_point", int(ans["prefix"]))
-                items.append(({"k": "obs", "model": model, "par": entry["par"], "pts": pts, "zero": zero, "hen": hen}, handler))
+                items.append(({"k": "obs", "model": model, "par": entry["par"], "pts": pts, "zero": zero, "hen": hen, "e10": 0}, handler))
+    return items
+
+
+def magnitudes(run, grid, meta, magplan, rng, thorough):
+    """The same physical isotherm expressed in pressure units 10^e apart (K from 1e-6 to 1e7, pressures ~ 1/K):
+    every clause of the relational contract must hold at every magnitude."""
+    from pygaps.modelling import get_isotherm_model
+    items = []
+    for model in sorted(magplan["power"]):
+        calc = meta[model]["calc"]
+        power = magplan["power"][model]
+        entries = sorted(grid[model], key=lambda e: par_key(e["par"]))
+        rng.shuffle(entries)
+        for entry in entries[: (3 if thorough else 1)]:
+            for e10 in sorted(magplan["exps"]):
+                par = {k: v * 10.0 ** (e10 * int(power.get(k, 0))) for k, v in fpar(entry["par"]).items()}
+                mdl = get_isotherm_model(model, parameters=par)
+                args = [float(frac(a)) for a in entry["args"]]
+                if calc == "loading":
+                    args = [a * 10.0 ** (-e10) for a in args]
+                H = float(frac(entry["H"])) * 10.0 ** e10 if meta[model]["henry"] == "y" else None
+                for form in FORMS:
+                    pts, zero, hen, info, zinfo, hinfo = (observe_loading_explicit if calc == "loading" else observe_pressure_explicit)(mdl, args, form, H)
+                    run.count(("mag", model, par_key(entry["par"]), e10, form), n=len(pts) + 2)
+
+                    def handler(ans, model=model, calc=calc, entry=entry, form=form, info=info, zinfo=zinfo, hinfo=hinfo, e10=e10, par=par):
+                        judge_obs(run, model, calc, entry, form, ans, info, zinfo, hinfo,
+                                  extra={"magnitude": "parameters x 1e%+d per pressure unit" % e10}, shown_parameters=par)
+                    items.append(({"k": "obs", "model": model, "par": entry["par"], "pts": pts, "zero": zero, "hen": hen, "e10": e10}, handler))
+    run.set(magnitude_records=len(items))
     return items
 
 
@@ -307,6 +337,31 @@ def elementwise(run, plan, meta, rng, thorough):
                 pairs.append(("pressure_at", "pressure", xs))
             items += wrapper_elementwise_records(run, iso, mdl, model, pairs, patterns, 2 if thorough else 1, rng)
     run.set(elementwise_records=len(items))
+    return items
+
+
+# ------------------------------------------------------------------ 3d. integer-typed arguments
+BARE_INT_KINDS = ("python_int", "numpy_int64", "0d_int_array", "int_ndarray", "int_series")
+WRAP_INT_KINDS = ("python_int", "int_ndarray", "int_list", "int_series")
+
+
+def integer_inputs(run, intplan, meta, rng, thorough):
+    import pygaps
+    items = []
+    for model in sorted(intplan):
+        entries = sorted(intplan[model], key=lambda e: (-(len(e["pressures"]) + len(e["loadings"])), par_key(e["par"])))
+        best = [e for e in entries if len(e["pressures"]) + len(e["loadings"]) == len(entries[0]["pressures"]) + len(entries[0]["loadings"])]
+        rng.shuffle(best)
+        for e in best[: (3 if thorough else 1)]:
+            mdl = build(model, e["par"])
+            items += integer_records(run, model, model, mdl.loading, "loading", [int(v) for v in e["pressures"]], BARE_INT_KINDS, "bare")
+            items += integer_records(run, model, model, mdl.pressure, "pressure", [int(v) for v in e["loadings"]], BARE_INT_KINDS, "bare")
+            iso = pygaps.ModelIsotherm(model=build(model, e["par"]), material="verif_mat_c10_int", adsorbate="nitrogen", temperature=77.344,
+                                       pressure_mode="absolute", pressure_unit="bar", loading_basis="molar", loading_unit="mmol",
+                                       material_basis="mass", material_unit="g")
+            items += integer_records(run, "ModelIsotherm", model, iso.loading_at, "loading_at", [int(v) for v in e["pressures"]], WRAP_INT_KINDS, "wrapper")
+            items += integer_records(run, "ModelIsotherm", model, iso.pressure_at, "pressure_at", [int(v) for v in e["loadings"]], WRAP_INT_KINDS, "wrapper")
+    run.set(integer_input_records=len(items))
     return items
 
 
@@ -413,8 +468,8 @@ def main(tier, seed):
     if res["distinct"] < 1000:
         raise MachineryError(f"ModelsMC explored only {res['distinct']} states; the exact grid has > 1000 rows")
 
-    ans = tlc.oracle("ModelsOracle", [{"k": "table"}, {"k": "grid"}, {"k": "histplan"}, {"k": "elemplan"}], timeout=600)
-    table, meta, grid, plans, eplan = ans[0]["table"], ans[0]["meta"], ans[1]["grid"], ans[2]["plans"], ans[3]
+    ans = tlc.oracle("ModelsOracle", [{"k": "table"}, {"k": "grid"}, {"k": "histplan"}, {"k": "elemplan"}, {"k": "magplan"}, {"k": "intplan"}], timeout=600)
+    table, meta, grid, plans, eplan, magplan, intplan = ans[0]["table"], ans[0]["meta"], ans[1]["grid"], ans[2]["plans"], ans[3], ans[4], ans[5]
     if len(table) != 16 or len(grid) != 16:
         raise MachineryError("the specification does not list the 16 models of the property")
     import pygaps.modelling as pm
@@ -437,7 +492,8 @@ def main(tier, seed):
     replay_table(run, table, meta, rng, stats)
     run.set(table_rows=sum(len(e["rows"]) for m in table for e in table[m]),
             table_worst_relative_error={f"{k[0]}.{k[1]}": float(f"{v:.3g}") for k, v in sorted(stats.items()) if v > 1e-12})
-    items = relational(run, grid, meta, rng, thorough) + histories(run, plans, meta, rng, thorough) + elementwise(run, eplan, meta, rng, thorough)
+    items = relational(run, grid, meta, rng, thorough) + magnitudes(run, grid, meta, magplan, rng, thorough) \
+        + histories(run, plans, meta, rng, thorough) + elementwise(run, eplan, meta, rng, thorough) + integer_inputs(run, intplan, meta, rng, thorough)
     # one TLC invocation judges every recorded observation (obs / hist / elem records)
     answers = tlc.oracle("ModelsOracle", [r for r, _ in items], timeout=900)
     for (_, handler), a in zip(items, answers):
@@ -464,6 +520,9 @@ def main(tier, seed):
                  "(b3) elementwise clause: unsorted 6-element arrays with a repeated element (patterns enumerated by the specification: permutations that are not their own inverse) "
                  "as ndarray and pandas.Series on loading()/pressure() of every model, and as ndarray/list/Series through ModelIsotherm.loading_at/pressure_at, each position "
                  "judged against the scalar call (Models!ElemStep); "
+                 "(b4) integer-typed input: whole-number arguments chosen by the specification inside each function's domain, as Python int, numpy.int64, 0-d / 1-d integer arrays, integer "
+                 "Series (and lists of ints through ModelIsotherm), judged against the float input of equal value; (b5) magnitudes: the same isotherm in pressure units 10^e apart "
+                 "(e in -6, -3, 3, 7: affinity constants from 1e-6 to 1e7, pressures ~ 1/K), full relational contract at every magnitude; "
                  "(c) ModelIsotherm.loading_at/pressure_at for 4 models x 2 native unit systems x requested pressure/loading/material representations. "
                  "non-trivial = not the zero row / not the native representation; distinct = distinct (part, model, parameters, form, function, row)")
     run.assume("the model equations transcribed in spec/Models.tla (from the formula/docstring of each model class) are the reference for 'the model'")
